@@ -1,4 +1,6 @@
 """C16 - feature lookups return exactly the overlapping features after any add history.
+(extension, second half of this file: loadGTF / loadBED on real text files, findNearest*Feature, findFeaturesBetweenBRK -
+Model/C16x.v, correspondence_x / search_x)
 
 K: random and small-exhaustive operation histories (addFeature / sort / findFeaturesAt / findFeaturesBetween /
 findFeaturesAtPysamAlign on real pysam reads / FeatureAnnotatedMolecule.annotate) are run on the REAL
@@ -340,12 +342,40 @@ class _Gen:
             raise Untranslatable('sort: the loop does not start with features.sort() and startCoordinates = starts')
 
 
+def _extension_switches(self):
+    """switches of Model/C16x.v: does findFeaturesBetweenBRK re-index first; do addFeature and sort drop the lru_cache of
+    findNearestFeature (directly or through _clear_lookup_cache)"""
+    self.autosort_first('findFeaturesBetweenBRK', 'g_autosort_brk')
+    NEAR = 'self.findNearestFeature.cache_clear()'
+    helper = [c for c in ast.walk(self.tree) if isinstance(c, ast.FunctionDef) and c.name == '_clear_lookup_cache']
+    helper_ok = bool(helper) and any(ast.unparse(st) == NEAR for st in helper[0].body)
+
+    def clears_near(fname, before=None):
+        for st in self.fn(fname).body:
+            if before is not None and isinstance(st, before):
+                break
+            u = ast.unparse(st)
+            if u == NEAR or (u == 'self._clear_lookup_cache()' and helper_ok):
+                return True
+        return False
+    w = self.fn('findNearestFeature')
+    if not any(ast.unparse(d).startswith('functools.lru_cache') for d in w.decorator_list):
+        raise Untranslatable('findNearestFeature is not behind functools.lru_cache any more: the cache of Model/C16x.v is not the code')
+    ok = clears_near('addFeature') and clears_near('sort', before=ast.For)
+    self.emit(helper[0] if helper else w, 'g_clear_near', ': bool', 'true' if ok else 'false',
+              note='(addFeature and sort clear the lru_cache of findNearestFeature unconditionally: %s)' % ok)
+
+
+_Gen.extension_switches = _extension_switches
+
+
 def regen_features():
     g = _Gen(fw.REPO)
     g.find_at()
     g.between()
     g.pysam_align()
     g.sort_and_add()
+    g.extension_switches()
     py2coq.write_gen(os.path.join(fw.COQ, 'Gen', 'GenFeatures.v'), '', g.chunks)
     return g.meta
 
@@ -524,6 +554,344 @@ def shrink_with(run, ops, key):
     return cur
 
 
+# ============================================================================= extension: loaders, nearest lookups, BRK
+# (Model/C16x.v).  x-cases use the real strings of the container (contig, name, data); towards the model every string is
+# its position (from 1) in the sorted table of all strings of the case (None = 0), see x_encode.
+XERR = {1: 'TypeError', 2: 'OverflowError', 3: 'ValueError', 4: 'ValueError', 5: 'KeyError', 6: 'ValueError'}
+GTF_DEFAULT = {'identifierFields': ['gene_id'], 'offset': -1}
+
+
+def gtf_text(rec):
+    """one record of gen_gtf -> the text line of the file"""
+    if rec['comment']:
+        return '#' + rec['text']
+    attrs = ' '.join('%s "%s";' % (k, v) for k, v in rec['attrs'])
+    return '\t'.join([rec['chrom'], 'src', rec['type'], str(rec['start']), str(rec['end']), '.', rec['strand'], rec['frame'], attrs])
+
+
+def gtf_tokens(line):
+    """the tokenisation loadGTF applies to a line (transcribed; re-checked against the generator's structure on every record)"""
+    if line[0] == '#':
+        return {'comment': True}
+    parts = line.rstrip().split(None, 8)
+    kvs = []
+    for part in parts[-1].split(';'):
+        kv = part.strip().split()
+        if len(kv) == 2:
+            kvs.append([kv[0], kv[1].replace('"', '')])
+    return {'comment': False, 'chrom': parts[0], 'type': parts[2], 'start': int(parts[3]), 'end': int(parts[4]),
+            'strand': parts[6], 'frame': parts[7], 'attrs': kvs}
+
+
+def bed_text(rec):
+    if rec['track']:
+        return 'track name=x'
+    cols = [rec['chrom'], str(rec['start']), str(rec['end']), rec['name'], '0', rec['strand'], '0', '0', '0', '1', '5,', '0,'][:rec['n']]
+    return '\t'.join(cols)
+
+
+def x_kwargs(par):
+    """gen parameters -> keyword arguments of loadGTF"""
+    kw = {'remapKeys': dict(par.get('remapKeys') or {})}         # an attribute of the container, set before every loader call
+    for a in ('contig', 'thirdOnly', 'select_feature_type', 'exon_select', 'head', 'parseBlocks'):
+        if par.get(a) is not None:
+            kw[a] = par[a]
+    if par.get('identifierFields') is not None:
+        kw['identifierFields'] = par['identifierFields']
+    if par.get('ignChr'):
+        kw['ignChr'] = True
+    if par.get('offset') is not None:
+        kw['offset'] = par['offset']
+    if par.get('region') is not None:
+        kw['region_start'], kw['region_end'] = par['region']
+    return kw
+
+
+def py_remap(m, c):
+    return (m or {}).get(c, c)
+
+
+def py_gtf_adds(par, recs):
+    """Python transcription of gtf_compile (Model/C16x.v): ([(contig, start, end, name, strand code, data)], error name | None)"""
+    out, added = [], 0
+    m = par.get('remapKeys') or {}
+    ident = par.get('identifierFields') or ['gene_id']
+    off = par.get('offset', -1) if par.get('offset') is not None else -1
+    for r in recs:
+        if par.get('head') is not None and added > par['head']:
+            break
+        if r['comment']:
+            continue
+        if par.get('contig') is not None and r['chrom'] != par['contig']:
+            continue
+        if par.get('thirdOnly') is not None and r['type'] not in par['thirdOnly']:
+            continue
+        if par.get('select_feature_type') is not None and r['type'] not in par['select_feature_type']:
+            continue
+        if par.get('exon_select') is not None and r['frame'] not in par['exon_select']:
+            continue
+        kv = {}
+        for k, v in r['attrs']:
+            kv[k] = v
+        chrom = py_remap(m, r['chrom'])
+        chromosome = chrom.replace('chr', '') if par.get('ignChr') else chrom
+        name = ','.join(kv[i] for i in ident if i in kv)
+        s, e = r['start'] + off, r['end'] + off
+        if par.get('region') is not None and (e < par['region'][0] or s > par['region'][1]):
+            continue
+        if 'gene_id' not in kv:
+            return out, 'KeyError'
+        st = {'+': 1, '-': 2}.get(r['strand'], 3)
+        if st == 3:
+            return out, 'ValueError'
+        out.append((py_remap(m, chromosome), s, e, name, st, 'type:%s,gene_id:%s' % (r['type'], kv['gene_id'])))
+        added += 1
+    return out, None
+
+
+def py_bed_adds(par, recs):
+    out = []
+    m = par.get('remapKeys') or {}
+    for r in recs:
+        if r['track']:
+            continue
+        if r['n'] < 2:
+            return out, 'ValueError'
+        has_strand = r['n'] in (6, 10, 12)
+        name = r['name'] if r['n'] >= 4 else str(r['idx'])
+        e = r['start'] + 1 if r['n'] == 2 else r['end']
+        chrom = py_remap(m, r['chrom'])
+        if par.get('ignChr'):
+            chrom = chrom.replace('chr', '')
+        st = 0
+        if has_strand:
+            st = {'+': 1, '-': 2}.get(r['strand'], 3)
+            if st == 3:
+                return out, 'ValueError'
+        out.append((chrom, r['start'], e, name, st, None))
+    return out, None
+
+
+def x_loader_adds(op):
+    return py_gtf_adds(op[1], op[3]) if op[0] == 'gtf' else py_bed_adds(op[1], op[3])
+
+
+def x_strings(ops, impl):
+    S = set()
+    for op in ops:
+        k = op[0]
+        if k == 'add':
+            S.update(x for x in (op[1], op[4], op[6]) if x is not None)
+        elif k in ('gtf', 'bed'):
+            adds, _ = x_loader_adds(op)
+            for a in adds:
+                S.update(x for x in (a[0], a[3], a[5]) if x is not None)
+            for r in op[3]:
+                c = r.get('chrom')
+                if c is not None:
+                    S.update([c, c.replace('chr', '')])
+            S.update((op[1].get('remapKeys') or {}).values())
+        elif k != 'sort':
+            S.add(op[1])
+    for r in impl:
+        for key in ('ok', 'fresh'):
+            for t in r.get(key, []):
+                S.update(x for x in (t[2], t[4]) if x is not None)
+        S.update(r.get('contigs', []))
+    return sorted(S)
+
+
+def x_encode(ops, impl):
+    """-> (table, coded ops, coded implementation answers)"""
+    tab = x_strings(ops, impl)
+    code = {s: i + 1 for i, s in enumerate(tab)}
+    code[None] = 0
+
+    def feat(t):
+        return [t[0], t[1], code[t[2]], t[3], code[t[4]]]
+    cops = []
+    for op in ops:
+        k = op[0]
+        if k == 'add':
+            cops.append(['add', code[op[1]], op[2], op[3], code[op[4]], op[5], code[op[6]]])
+        elif k in ('gtf', 'bed'):
+            adds, err = x_loader_adds(op)
+            cops.append([k, [[code[a[0]], a[1], a[2], code[a[3]], a[4], code[a[5]]] for a in adds], err])
+        elif k == 'sort':
+            cops.append(op)
+        else:
+            cops.append([k, code[op[1]]] + list(op[2:]))
+    cimpl = []
+    for r in impl:
+        d = dict(r)
+        for key in ('ok', 'fresh'):
+            if key in d:
+                d[key] = [feat(t) for t in d[key]]
+        cimpl.append(d)
+    return tab, cops, cimpl
+
+
+def opt(x):
+    return [] if x is None else [x]
+
+
+def x_model_case(tab, ops, cops):
+    """[table, operations] in the Val encoding of Model/C16x.v dec_xop"""
+    mo = []
+    for op, cop in zip(ops, cops):
+        k = op[0]
+        if k == 'add':
+            mo.append([0, cop[1], cop[2:7]])
+        elif k == 'sort':
+            mo.append([1])
+        elif k == 'at':
+            mo.append([2] + cop[1:5])
+        elif k == 'between':
+            mo.append([3] + cop[1:5])
+        elif k in ('nl', 'nr', 'near'):
+            mo.append([{'nl': 5, 'nr': 6, 'near': 7}[k]] + cop[1:4])
+        elif k == 'brk':
+            mo.append([8] + cop[1:5])
+        elif k == 'gtf':
+            p = op[1]
+            par = [opt(p.get('contig')), opt(p.get('thirdOnly')), opt(p.get('select_feature_type')), opt(p.get('exon_select')),
+                   p.get('identifierFields') or ['gene_id'], 1 if p.get('ignChr') else 0,
+                   p.get('offset') if p.get('offset') is not None else -1, opt(p.get('region')), opt(p.get('head')),
+                   [[a, b] for a, b in sorted((p.get('remapKeys') or {}).items())]]
+            recs = [[1, '', '', 0, 0, '', '', []] if r['comment'] else
+                    [0, r['chrom'], r['type'], r['start'], r['end'], r['strand'], r['frame'], r['attrs']] for r in op[3]]
+            mo.append([10, par, recs])
+        elif k == 'bed':
+            p = op[1]
+            recs = [[1 if r['track'] else 0, r['n'], r['idx'], r['chrom'], r['start'], r['end'], r['name'], r['strand']] for r in op[3]]
+            mo.append([11, 1 if p.get('ignChr') else 0, [[a, b] for a, b in sorted((p.get('remapKeys') or {}).items())], recs])
+        else:
+            raise ValueError(op)
+    return [tab, mo]
+
+
+def x_walk(cops):
+    """abstract run over coded ops: yields (index, op, features added before it [(c, (s, e, n, st, d))], clean flag before it)"""
+    allf, clean = [], True
+    for i, op in enumerate(cops):
+        yield i, op, list(allf), clean
+        k = op[0]
+        if k == 'add':
+            if 0 <= op[5] <= 2:
+                allf.append((op[1], tuple(op[2:7])))
+                clean = False
+        elif k in ('gtf', 'bed'):
+            for a in op[1]:
+                allf.append((a[0], tuple(a[1:6])))
+            clean = True
+        elif k in ('nl', 'nr'):
+            clean = clean or any(c == op[1] for c, _ in allf)
+        elif k == 'brk':
+            pass
+        else:
+            clean = True
+
+
+def x_wf(cops, brk_fixed):
+    """Python transcription of xhist_wfb (Model/C16x.v)"""
+    feats = []
+    for i, op, allf, clean in x_walk(cops):
+        k = op[0]
+        if k == 'add':
+            if not (op[2] <= op[3] and 0 <= op[3]):
+                return False
+            if 0 <= op[5] <= 2:
+                feats.append((op[1], op[2], op[3], op[4], op[5]))
+        elif k in ('gtf', 'bed'):
+            if op[2] is not None:
+                return False
+            for a in op[1]:
+                if not (a[1] <= a[2] and 0 <= a[2]):
+                    return False
+                feats.append(tuple(a[:5]))
+        elif k == 'at' and not 0 <= op[4] <= 2:
+            return False
+        elif k == 'between' and not op[2] <= op[3]:
+            return False
+        elif k == 'brk' and not (brk_fixed or clean):
+            return False
+    seen = {}
+    for c, s, e, n, st in feats:
+        seen.setdefault((c, s, e, n), set()).add(st == 0)
+    return all(len(v) == 1 for v in seen.values())
+
+
+def x_wf_len(cops, brk_fixed):
+    """number of leading operations inside the precondition"""
+    if x_wf(cops, brk_fixed):
+        return len(cops)
+    lo, hi = 0, len(cops)          # x_wf is monotone on prefixes
+    while lo < hi:
+        mid = (lo + hi + 1) // 2
+        if x_wf(cops[:mid], brk_fixed):
+            lo = mid
+        else:
+            hi = mid - 1
+    return lo
+
+
+def x_spec_check(op, allf, r):
+    """the statement evaluated on one answer of the implementation (coded).  None if it holds, else (got, expected).
+    at / between / brk / nr: brute force over everything added so far; nl / near: the answer of a fresh container
+    over everything added so far ('fresh', computed by the implementation itself: the history clause), and for near
+    inside a feature the brute force point lookup"""
+    def match(q, f):
+        return q == 0 or f[3] == q
+    k = op[0]
+    got = [tuple(t) for t in r['ok']]
+    fs = [f for c, f in allf if c == op[1]]
+    if k in ('at', 'between'):
+        kind, exp = spec_answer(allf, op)
+        if kind == 'set' and len(set(got)) != len(got):
+            return got, 'duplicates'
+        return None if sorted(got) == [tuple(t) for t in exp] else (sorted(got), exp)
+    if k == 'brk':
+        exp = sorted(set(f for f in fs if f[0] <= op[2] <= f[1] and f[0] <= op[3] <= f[1] and match(op[4], f)))
+        return None if sorted(got) == exp and len(set(got)) == len(got) else (sorted(got), exp)
+    if k == 'nr':
+        cand = sorted(f for f in fs if f[0] > op[2] and match(op[3], f))
+        exp = cand[:1]
+        return None if got == exp else (got, exp)
+    fresh = [tuple(t) for t in r.get('fresh', [])]
+    if k == 'near':
+        inside = sorted(f for f in fs if f[0] <= op[2] <= f[1])
+        if inside:
+            return None if sorted(got) == inside else (sorted(got), inside)
+    return None if sorted(got) == sorted(fresh) else (got, fresh)
+
+
+def x_classify(ops, cops, cimpl, brk_fixed):
+    """None, or (key, index, got, expected) for the first answer of a history inside the precondition that is not the statement's"""
+    if not x_wf(cops, brk_fixed):
+        return None
+    for i, op, allf, clean in x_walk(cops):
+        if i >= len(cimpl):
+            break
+        r = cimpl[i]
+        k = op[0]
+        if k == 'add':
+            bad = not 0 <= op[5] <= 2
+            if bad != ('error' in r and r['error'].startswith('ValueError')):
+                return 'x-add:malformed', i, r, None
+            continue
+        if 'error' in r:
+            return 'x-%s:raise' % k, i, 'raised ' + r['error'], None
+        if k in ('sort', 'gtf', 'bed'):
+            continue
+        f = x_spec_check(op, allf, r)
+        if f is not None:
+            got, exp = f
+            g = set(map(str, got)); e = set(map(str, exp))
+            cls = 'missing' if e - g and not g - e else 'extra' if g - e and not e - g else 'different'
+            return 'x-%s:%s' % (k, cls), i, got, exp
+    return None
+
+
 class Prop(fw.PropBase):
     ID = 'C16'
     PROPS = 'Props/C16.v'
@@ -545,14 +913,33 @@ class Prop(fw.PropBase):
         'clear the cache; the proved invariant (every cached answer is the answer of the current index) is stable under removal',
         'feature names and data objects are abstracted to integers in an order preserving way (harness: names n%06d, data '
         '((gene_id, g%06d),)); contig names to integers',
-        'not modelled: the fourth, unnamed lookup variant of _findFeaturesAt (optim not in bdbnb/nb/optim), findNearest*, '
-        'annotateUTRs (rewrites feature data in place), GTF/BED loaders (they call addFeature + sort)',
+        'not modelled: the fourth, unnamed lookup variant of _findFeaturesAt (optim not in bdbnb/nb/optim), annotateUTRs (rewrites '
+        'feature data in place)',
+        'extension (Model/C16x.v), modelled not verified: loadGTF / loadBED at the level of TOKENISED columns - the tokenisation '
+        '(line.rstrip().split(None, 8), split(\';\') / strip().split() / replace of the quotes for the attribute column, int() of the '
+        'coordinates, line[0] == \'#\') is transcribed in the harness (gtf_tokens) and re-checked on every generated line against the '
+        'structure it was printed from; file opening / gzip, GFF3 attribute syntax (is_gff), store_all=True, identifierFields=None, '
+        'thirdOnly given as a string (substring test), loadBED with parseBlocks on block columns are not modelled. Control flow of the '
+        'loaders and of findNearestLeftFeature / findNearestRightFeature / findNearestFeature / findFeaturesBetweenBRK is hand modelled '
+        'and tied by K only; T covers two switches: g_autosort_brk (first statement of findFeaturesBetweenBRK re-indexes) and '
+        'g_clear_near (addFeature and sort clear the lru_cache of findNearestFeature)',
+        'extension: strings (contig, name, data) reach the machine as integers: the theorems hold for every numbering [code]; K uses '
+        'the position in the sorted table of all strings of a case, which is order preserving (tuple comparison in list.sort). '
+        'len(self.endCoordinates) (the clip bound in findNearestLeftFeature) = number of contigs added to so far; the lru_cache of '
+        'findNearestFeature = LRU list keyed on (contig, coordinate, strand), cleared whenever sort() runs or addFeature succeeds',
+        'extension: the specification of findNearestLeftFeature / findNearestFeature in the history theorem is the answer of a fresh '
+        'index over everything added so far (the stale-state clause); K evaluates it on the implementation by asking a FRESH real '
+        'FeatureContainer holding the same features (field fresh), i.e. the implementation is its own oracle for that clause. That '
+        'these answers are not the nearest feature is proved (C16_near_left*_refuted) and listed as a discrepancy, not asserted',
     ]
     ASSUMPTIONS = [
         'coordinates are Python ints with |x| < 2^53 (int64/uint64/float64 conversions in numpy are exact there); the model uses Z',
         'features satisfy start <= end and 0 <= end (otherwise sort() raises ValueError / OverflowError: modelled as Raise, outside the theorem)',
         'no two features of one contig share (start, end, name) while exactly one of them has strand None (list.sort raises TypeError: modelled as Raise)',
         'range queries have sampleStart <= sampleEnd; every pysam block is non empty (start < end)',
+        'extension: a loader call inside the theorem does not raise (every line that is not filtered out has a gene_id attribute and '
+        'strand + or -; BED lines have at least 2 columns) and loads features with start <= end, 0 <= end; with the code as it is '
+        '(g_autosort_brk = false) findFeaturesBetweenBRK is not the first lookup after an addFeature (C16_brk_stale_refuted, fixes/C16-D33)',
     ]
 
     def regen(self):
@@ -769,7 +1156,7 @@ class Prop(fw.PropBase):
             return [0, ms[0][1]]
         return [0, sorted(ms[0][1])]
 
-    def correspondence(self):
+    def correspondence_base(self):
         cases = self.all_cases()
         impl = self.run_impl_cases(cases)
         self.cases, self.impl = cases, impl
@@ -918,8 +1305,492 @@ class Prop(fw.PropBase):
             raise fw.Broken('correspondence', 'implementation answers differ from the specification (spec_run) on %d histories; first: %s'
                             % (len(specdis), json.dumps(specdis[0])[:1500]))
 
-    # ------------------------------------------------------------------ search (no model)
+    # ------------------------------------------------------------------ extension (Model/C16x.v): generators
+    def gen_gtf(self, U, contigs, genes):
+        r = self.rng
+        types = ['exon', 'gene', 'transcript', 'CDS']
+        frames = ['.', '0', '1', '2']
+        recs = []
+        for _ in range(r.choice([0, 1, 2, 3, 5, 8, 12])):
+            if r.random() < 0.08:
+                recs.append({'comment': True, 'text': r.choice(['!genome-build X', '#gff-like comment', ' a b c'])})
+                continue
+            s = r.randint(0, U)
+            L = r.choice([0, 0, 1, 2, 3, r.randint(0, max(1, U // 3)), r.randint(0, U)])
+            if recs and r.random() < 0.3:
+                p = r.choice(recs)
+                if not p['comment']:
+                    s = r.choice([p['start'] - 1, p['end'] - 1, p['start']]); s = max(0, s)
+            g = r.choice(genes)
+            attrs = []
+            if r.random() < 0.96:
+                attrs.append(['gene_id', g])
+            if r.random() < 0.6:
+                attrs.append(['transcript_id', 't' + g[1:] + r.choice(['a', 'b'])])
+            if r.random() < 0.4:
+                attrs.append(['gene_name', 'N' + g[1:]])
+            if r.random() < 0.08:
+                attrs.append(['gene_id', r.choice(genes)])          # a repeated key: the last one wins
+            r.shuffle(attrs)
+            recs.append({'comment': False, 'chrom': r.choice(contigs), 'type': r.choice(types), 'start': s + 1, 'end': s + L + 1,
+                         'strand': r.choice(['+', '+', '-', '-', '+', '-', '+', '-', '+', '-', '+', '-', '.']) if r.random() < 0.25 else r.choice('+-'),
+                         'frame': r.choice(frames), 'attrs': attrs})
+        par = {}
+        if r.random() < 0.4:
+            par['select_feature_type'] = r.sample(types, r.choice([1, 1, 2]))
+        if r.random() < 0.1:
+            par['thirdOnly'] = r.sample(types, r.choice([1, 2, 3]))
+        if r.random() < 0.06:
+            par['exon_select'] = r.sample(frames, 2)
+        m = r.random()
+        if m < 0.4:
+            par['identifierFields'] = r.choice([['gene_id', 'transcript_id'], ['gene_name'], ['transcript_id', 'gene_id'], ['gene_id']])
+        if r.random() < 0.2:
+            par['ignChr'] = True
+        if r.random() < 0.15:
+            par['contig'] = r.choice(contigs)
+            if r.random() < 0.5:
+                a = r.randint(0, U); par['region'] = [a, a + r.randint(0, U // 2)]
+        if r.random() < 0.12:
+            par['offset'] = r.choice([0, -1, 1])
+        if r.random() < 0.1:
+            par['head'] = r.choice([0, 1, 3])
+        if r.random() < 0.12:
+            par['remapKeys'] = r.choice([{contigs[0]: 'chrA'}, {contigs[-1].replace('chr', ''): 'chrB'}, {contigs[0]: contigs[-1]}])
+        lines = [gtf_text(x) for x in recs]
+        return ['gtf', par, lines, recs]
+
+    def gen_bed(self, U, contigs):
+        r = self.rng
+        recs = []
+        for i in range(r.choice([0, 1, 2, 3, 5, 8])):
+            if r.random() < 0.08:
+                recs.append({'track': True, 'n': 2, 'idx': i, 'chrom': '', 'start': 0, 'end': 0, 'name': '', 'strand': ''})
+                continue
+            s = r.randint(0, U)
+            recs.append({'track': False, 'n': r.choice([3, 3, 4, 6, 6, 6, 2, 5, 12, 10, 9]) if r.random() < 0.985 else 1, 'idx': i,
+                         'chrom': r.choice(contigs), 'start': s, 'end': s + r.choice([0, 1, 2, 5, r.randint(0, U)]),
+                         'name': 'b%d' % r.randint(0, 9), 'strand': r.choice('+-') if r.random() < 0.97 else '.'})
+        par = {}
+        if r.random() < 0.2:
+            par['ignChr'] = True
+        if r.random() < 0.1:
+            par['remapKeys'] = {contigs[0]: 'chrA'}
+        if any(x['n'] in (10, 12) for x in recs):
+            par['parseBlocks'] = False
+        return ['bed', par, [bed_text(x) for x in recs], recs]
+
+    def gen_xquery(self, U, contigs, pool, asked):
+        r = self.rng
+        if asked and r.random() < 0.3:
+            return list(r.choice(asked))
+        c = r.choice(contigs + [x.replace('chr', '') for x in contigs] + ['chrA', 'nope']) if r.random() < 0.25 else r.choice(contigs)
+        q = r.choice([0, 0, 0, 1, 2])
+
+        def coord():
+            m = r.random()
+            if pool and m < 0.6:
+                s, e = r.choice(pool)
+                return r.choice([s, e, s - 1, e + 1, s + 1, e - 1, (s + e) // 2])
+            if m < 0.7:
+                return r.randint(-U - 3, -1)
+            if m < 0.8:
+                return r.randint(U, 3 * U + 5)
+            return r.randint(-2, U + 2)
+        m = r.random()
+        if m < 0.16:
+            return ['at', c, coord(), q, r.choice([0, 0, 1, 2])]
+        if m < 0.28:
+            a, b = sorted([coord(), coord()])
+            return ['between', c, a, b, q]
+        if m < 0.34:
+            return ['between', c, -10 ** 7, 10 ** 7, 0]            # everything on the contig
+        if m < 0.5:
+            return ['nl', c, coord(), q]
+        if m < 0.66:
+            return ['nr', c, coord(), q]
+        if m < 0.84:
+            return ['near', c, coord(), q]
+        a, b = coord(), coord()
+        if r.random() < 0.5:
+            b = a + r.choice([0, 1, 2])
+        return ['brk', c, a, b, q]
+
+    def gen_xcase(self):
+        r = self.rng
+        U = r.choice([8, 12, 30, 100, 1000])
+        contigs = r.choice([['chr1'], ['chr1'], ['chr1', 'chr2'], ['chr1', '2', 'chrX'], ['chr1', 'chr2', 'chr3', 'chr4']])
+        genes = ['g%d' % i for i in range(r.choice([2, 4, 8]))]
+        ops, pool, asked = [], [], []
+        for rd in range(r.choice([1, 2, 2, 3, 3])):
+            kind = r.choice(['gtf', 'gtf', 'gtf', 'bed', 'adds', 'adds'])
+            if kind == 'gtf':
+                op = self.gen_gtf(U, contigs, genes)
+                pool += [(x['start'] - 1, x['end'] - 1) for x in op[3] if not x['comment']]
+                ops.append(op)
+            elif kind == 'bed':
+                op = self.gen_bed(U, contigs)
+                pool += [(x['start'], x['end']) for x in op[3] if not x['track']]
+                ops.append(op)
+            else:
+                for _ in range(r.choice([1, 2, 3, 5, 8])):
+                    s = r.randint(0, U); L = r.choice([0, 1, 2, r.randint(0, max(1, U // 3)), r.randint(0, U)])
+                    if pool and r.random() < 0.3:
+                        s = r.choice(r.choice(pool))
+                    pool.append((s, s + L))
+                    ops.append(['add', r.choice(contigs), s, s + L, 'a%d' % r.randint(0, 9), r.choice([1, 1, 2]), 'd%d' % r.randint(0, 3)])
+                    if r.random() < 0.06:
+                        qy = self.gen_xquery(U, contigs, pool, asked); asked.append(qy); ops.append(qy)
+                if r.random() < 0.55:
+                    ops.append(['sort'])
+            for _ in range(r.choice([2, 4, 6, 10])):
+                qy = self.gen_xquery(U, contigs, pool, asked); asked.append(qy); ops.append(qy)
+        return ops
+
+    def x_exhaustive(self, K):
+        """every (feature, second feature) over 0..K-1 on one contig; nearest / BRK lookups at every point before and after
+        the second addition, with and without an explicit re-index"""
+        ivs = [(s, e) for s in range(K) for e in range(s, K)]
+        pts = list(range(-1, K + 1))
+        qs = [[k, 'chr1', x, q] for k in ('nl', 'nr', 'near') for x in pts for q in (0, 1)] + \
+             [['brk', 'chr1', a, b, 0] for a in pts for b in pts]
+        cases = []
+        for n, ((s1, e1), (s2, e2)) in enumerate(itertools.product(ivs, ivs)):
+            ops = [['add', 'chr1', s1, e1, 'a1', 1, 'd'], ['sort']] + qs + [['add', 'chr1', s2, e2, 'a2', 2, 'd']]
+            if n % 2:
+                ops.append(['sort'])
+            cases.append(ops + qs)
+        return cases
+
+    # ------------------------------------------------------------------ extension: K
+    def brk_fixed(self):
+        try:
+            g = _Gen(fw.REPO)
+            b = g.body_wo_doc(g.fn('findFeaturesBetweenBRK'))
+            return bool(b) and g.is_autosort(b[0])
+        except Exception:
+            return False
+
+    def run_impl_xcases(self, cases):
+        n = max(1, min(fw.NPROC, 4, len(cases) // 60 + 1))
+        chunks = [cases[i::n] for i in range(n)]
+        from concurrent.futures import ThreadPoolExecutor
+        with ThreadPoolExecutor(max_workers=n) as ex:
+            outs = list(ex.map(lambda ch: fw.run_impl('impl_c16.py', {'xcases': [[[op[0], x_kwargs(op[1]), op[2]] if op[0] in ('gtf', 'bed') else op
+                                                                                for op in c] for c in ch]}), chunks))
+        res = [None] * len(cases)
+        for j, o in enumerate(outs):
+            for i, r in enumerate(o['results']):
+                res[j + i * n] = r
+        return res
+
+    def x_all_cases(self):
+        quick = self.tier == 'quick'
+        corpus = []
+        d = os.path.join(fw.VERIF, 'corpus', 'C16')
+        if os.path.isdir(d):
+            for fn in sorted(os.listdir(d)):
+                if fn.endswith('.xjson'):
+                    corpus.append(json.load(open(os.path.join(d, fn)))['ops'])
+        rnd = [self.gen_xcase() for _ in range(400 if quick else 12000)]
+        exh = self.x_exhaustive(3 if quick else 4)
+        self.xgroups = {'corpus': len(corpus), 'random': len(rnd), 'exhaustive': len(exh)}
+        return corpus + rnd + exh
+
+    @staticmethod
+    def x_canon_impl(op, r):
+        if 'error' in r:
+            return ['raise', r['error'].split(':')[0]]
+        return ['ok', sorted(r['ok'])]         # the order of an answer is not part of the statement
+
+    @staticmethod
+    def x_canon_model(op, m):
+        if m[0] == 1:
+            return ['raise', XERR.get(m[1], '?')]
+        return ['ok', sorted(m[1])]
+
+    def correspondence_x(self):
+        cases = self.x_all_cases()
+        impl = self.run_impl_xcases(cases)
+        bf = self.brk_fixed()
+        enc = [x_encode(c, r) for c, r in zip(cases, impl)]
+        self.xcases, self.ximpl, self.xenc, self.xbf = cases, impl, enc, bf
+        cov = {}
+        self.cov['extension'] = cov
+        kinds, ans, load_out, tok_bad = collections.Counter(), collections.Counter(), collections.Counter(), []
+        nontrivial = set()
+        requery = 0
+        for c, r, (tab, cops, cimpl) in zip(cases, impl, enc):
+            seen, dirty = {}, set()
+            for (i, cop, allf, clean), op, a in zip(x_walk(cops), c, cimpl):
+                k = op[0]
+                kinds[k] += 1
+                if k in ('gtf', 'bed'):
+                    load_out[k + ':' + (a['error'].split(':')[0] if 'error' in a else 'ok')] += 1
+                    if k == 'gtf':
+                        for line, rec in zip(op[2], op[3]):
+                            t = gtf_tokens(line)
+                            if t != ({'comment': True} if rec['comment'] else {x: rec[x] for x in t}):
+                                tok_bad.append(line)
+                    dirty = set(seen)
+                if k == 'add':
+                    dirty = set(seen)
+                if k in ('add', 'sort', 'gtf', 'bed') or 'error' in a:
+                    continue
+                key = json.dumps(op)
+                if key in dirty:
+                    requery += 1; dirty.discard(key)
+                seen[key] = 1
+                n = len(a['ok'])
+                ans[k + (':0' if n == 0 else ':1' if n == 1 else ':2+')] += 1
+                if n:
+                    nontrivial.add(fw.canon_hash([sorted(allf), cop]))
+        pre = [x_wf(cops, bf) for _, cops, _ in enc]
+        nq = sum(1 for c, r in zip(cases, impl) for op in c[:len(r)] if op[0] not in ('add', 'sort'))
+        cov.update({
+            'evaluations': nq, 'distinct_nontrivial': len(nontrivial),
+            'rule': 'one evaluation = one lookup or loader call answered by the real container inside a history and compared with the '
+                    'model (Model/C16x.v); non-trivial = non empty answer, distinct by (feature multiset at that moment, query)',
+            'histories': len(cases), 'groups': self.xgroups, 'ops': dict(kinds), 'answers': dict(ans), 'loader_outcomes': dict(load_out),
+            'queries_repeated_after_a_later_addition': requery, 'precondition_hit_rate': round(sum(pre) / max(1, len(pre)), 4),
+            'gtf_tokenisation_contract_violations': len(tok_bad), 'findFeaturesBetweenBRK_reindexes_first': bf,
+            'samples': [{'history': [op[:3] if op[0] in ('gtf', 'bed') else op for op in c[:8]], 'impl': r[:8]}
+                        for c, r in list(zip(cases, impl))[self.xgroups['corpus']:self.xgroups['corpus'] + 2]],
+        })
+        self.cov['evaluations'] = self.cov.get('evaluations', 0) + nq
+        self.cov['distinct_nontrivial'] = self.cov.get('distinct_nontrivial', 0) + len(nontrivial)
+        if tok_bad:
+            raise fw.Broken('correspondence', 'the harness tokenisation of a generated GTF line differs from its structure: %r' % tok_bad[0])
+        if not self.model_ok:
+            return
+        mcases = [x_model_case(tab, c, cops) for c, (tab, cops, _) in zip(cases, enc)]
+        mres = fw.run_model('C16', 10, mcases)
+        mpre = fw.run_model('C16', 11, mcases)
+        mspec = fw.run_model('C16', 12, mcases)
+        for j in range(len(cases)):
+            if bool(mpre[j]) != pre[j]:
+                raise fw.Broken('correspondence', 'harness precondition x_wf and xhist_wfb differ on %s' % json.dumps(cases[j])[:1200])
+        dis, specdis, compared = [], [], 0
+        for ci, (c, (tab, cops, cimpl)) in enumerate(zip(cases, enc)):
+            # outside the precondition (a loader call that raises, an ill-formed feature, an unorderable pair) behaviour is not
+            # constrained: compared on the longest prefix inside it.  The BRK guard only gates the comparison with the
+            # specification: the model follows the source there (g_autosort_brk)
+            n_model = x_wf_len(cops, True)
+            n_spec = x_wf_len(cops, bf)
+            for i, cop, allf, clean in x_walk(cops):
+                if i >= len(cimpl) or i >= n_model:
+                    break
+                a, m = cimpl[i], mres[ci][i]
+                gi, gm = self.x_canon_impl(cop, a), self.x_canon_model(cop, m)
+                compared += 1
+                if gi != gm:
+                    dis.append({'case': ci, 'op_index': i, 'op': c[i][:3] if c[i][0] in ('gtf', 'bed') else c[i], 'impl': gi, 'model': gm,
+                                'history': [op[:3] if op[0] in ('gtf', 'bed') else op for op in c[:i]]})
+                    break
+                if i < n_spec and 'error' not in a and cop[0] not in ('add', 'sort', 'gtf', 'bed'):
+                    # the specification of the theorems (xspec_run, mode 12) on the implementation's answer, and the Python
+                    # transcription search() uses against both
+                    sm = self.x_canon_model(cop, mspec[ci][i])
+                    si = ['ok', sorted(a['ok'])]
+                    if si != sm:
+                        specdis.append({'case': ci, 'op_index': i, 'op': c[i], 'impl': si, 'spec': sm, 'history': [op[:3] if op[0] in ('gtf', 'bed') else op for op in c[:i]]})
+                        break
+                    if x_spec_check(cop, allf, a) is not None:
+                        specdis.append({'case': ci, 'op_index': i, 'op': c[i], 'impl': si, 'python_spec': x_spec_check(cop, allf, a)})
+                        break
+                if m[0] == 1 and m[1] in (1, 2, 3) or ('error' in a and cop[0] not in ('add', 'gtf', 'bed')):
+                    break           # half indexed after an exception inside sort(): not compared further
+            if pre[ci] and any('error' in a for a in cimpl):
+                specdis.append({'case': ci, 'op': 'exception inside the precondition', 'impl': [a for a in cimpl if 'error' in a][0],
+                                'history': [op[:3] if op[0] in ('gtf', 'bed') else op for op in c]})
+        cov['traces_validated_against_impl'] = len(cases)
+        cov['answers_compared'] = compared
+        cov['disagreements'] = len(dis)
+        cov['spec_disagreements'] = len(specdis)
+        self.cov['traces_validated_against_impl'] = self.cov.get('traces_validated_against_impl', 0) + len(cases)
+        idx = sorted(self.rng.sample(range(len(cases)), min(140, len(cases))), key=lambda i: len(json.dumps(mcases[i])))[:100]
+        ok, nm, log = fw.vm_crosscheck('C16', 10, [(mcases[i], mres[i]) for i in idx], run_name='run_C16x', require='Model.C16x')
+        cov['vm_compute_crosscheck'] = {'cases': len(idx), 'mismatches': nm}
+        if not ok:
+            raise fw.Broken('extraction', 'vm_compute and extracted model disagree (extension): ' + log[-800:])
+        self.xdis = dis + specdis
+        if dis:
+            raise fw.Broken('correspondence', 'extension: model and implementation disagree on %d histories; first: %s'
+                            % (len(dis), json.dumps(dis[0])[:1800]))
+        if specdis:
+            raise fw.Broken('correspondence', 'extension: implementation answers differ from the specification on %d histories; first: %s'
+                            % (len(specdis), json.dumps(specdis[0])[:1800]))
+
+    def search_x(self):
+        cases = getattr(self, 'xcases', None)
+        if cases is None:
+            cases = self.x_all_cases()
+            impl = self.run_impl_xcases(cases)
+            enc = [x_encode(c, r) for c, r in zip(cases, impl)]
+            bf = self.brk_fixed()
+        else:
+            impl, enc, bf = self.ximpl, self.xenc, self.xbf
+        found = {}
+        for c, (tab, cops, cimpl) in zip(cases, enc):
+            f = x_classify(c, cops, cimpl, bf)
+            if f and (f[0] not in found or len(json.dumps(c[:f[1] + 1])) < found[f[0]][2]):
+                found[f[0]] = (c, f, len(json.dumps(c[:f[1] + 1])))
+        for key in sorted(found, key=lambda k: found[k][2])[:3]:
+            c, f, _ = found[key]
+            small = self.x_shrink(c, key, bf)
+            r = self.run_impl_xcases([small])[0]
+            tab, cops, cimpl = x_encode(small, r)
+            f2 = x_classify(small, cops, cimpl, bf)
+            if f2 is None:
+                continue
+            k2, i, got, exp = f2
+            show = [op[:3] if op[0] in ('gtf', 'bed') else op for op in small]
+            if exp is None:
+                what = 'after the history %s the call %s: %s (inside the precondition of C16_xhistory every call returns normally)' % (
+                    json.dumps(show[:i]), json.dumps(show[i]), got if isinstance(got, str) else json.dumps(got))
+            else:
+                what = ('after the history %s the call %s returns %s; the statement (brute force over everything loaded / added so far; for '
+                        'findNearestLeftFeature / findNearestFeature the answer of a fresh container over everything added so far) gives %s; '
+                        'strings are numbered by the table %s' % (json.dumps(show[:i]), json.dumps(show[i]), json.dumps(r[i].get('ok')),
+                                                                  json.dumps(r[i].get('fresh') if cops[i][0] in ('nl', 'near') and r[i].get('fresh') != r[i].get('ok') else exp), json.dumps(tab)))
+            self.witnesses.append({'key': k2, 'what': what, 'input': show[:i + 1], 'impl': r[i].get('ok', r[i]), 'expected': exp})
+
+    def x_shrink(self, ops, key, bf):
+        """greedy removal of operations (and of file lines inside a loader call) keeping the failure class; all candidates of
+        a round run in one batch on the real implementation"""
+        def bad_many(cands):
+            out = []
+            for c, r in zip(cands, self.run_impl_xcases(cands)):
+                tab, cops, cimpl = x_encode(c, r)
+                f = x_classify(c, cops, cimpl, bf)
+                out.append(f if f is not None and f[0] == key else None)
+            return out
+        f = bad_many([ops])[0]
+        if f is None:
+            return ops
+        cur = list(ops[:f[1] + 1])
+        for _ in range(8):
+            cands = [cur[:i] + cur[i + 1:] for i in range(len(cur) - 1)]
+            for j, op in enumerate(cur):
+                if op[0] in ('gtf', 'bed'):
+                    for n in range(len(op[2])):
+                        recs = op[3][:n] + op[3][n + 1:]
+                        if op[0] == 'bed':
+                            recs = [dict(x, idx=t) for t, x in enumerate(recs)]
+                        cands.append(cur[:j] + [[op[0], op[1], op[2][:n] + op[2][n + 1:], recs]] + cur[j + 1:])
+            if not cands:
+                break
+            res = bad_many(cands)
+            ok = [c for c, f in zip(cands, res) if f is not None]
+            if not ok:
+                break
+            cur = min(ok, key=lambda c: len(json.dumps(c)))
+            # several removals at once when many candidates survive: keep removing greedily inside this batch result
+        return cur
+
+    # ------------------------------------------------------------------ extension: the attribute column at character level
+    def gen_attr_text(self):
+        r = self.rng
+        toks = ['gene_id', 'transcript_id', 'gene_name', 'tag', 'k', 'g1', 'g2', 'ENSG0001.5', 't-1', 'a=b', 'x"y', '""', 'v']
+        parts = []
+        for _ in range(r.choice([1, 1, 2, 3, 4, 6])):
+            m = r.random()
+            k, v = r.choice(toks), r.choice(toks)
+            if m < 0.55:
+                parts.append('%s "%s"' % (k, v))
+            elif m < 0.65:
+                parts.append('%s %s' % (k, v))
+            elif m < 0.72:
+                parts.append('%s  \t "%s" ' % (k, v))
+            elif m < 0.8:
+                parts.append('%s "%s" %s' % (k, v, r.choice(toks)))
+            elif m < 0.86:
+                parts.append(k)
+            elif m < 0.9:
+                parts.append('')
+            elif m < 0.95:
+                parts.append(' ' + r.choice(['\x0b', '\x0c', '\x1c', ' ']) + '%s "%s"' % (k, v))
+            else:
+                parts.append('%s "%s %s"' % (k, v, v))
+        sep = r.choice(['; ', ';', ' ; ', ';  '])
+        text = sep.join(parts) + r.choice([';', '; ', '', ' ;;'])
+        return text if text.strip() else 'k "v";'
+
+    def gen_printed_attrs(self, n):
+        """(text, pairs): print_attrs (Model/C16a.v) of clean, distinct-key pairs - the inputs of C16_gtf_attrs_roundtrip"""
+        r = self.rng
+        keys = ['gene_id', 'transcript_id', 'gene_name', 'exon_number', 'tag', 'k']
+        vals = ['g1', 'ENSG0001.5', 't-1', 'a=b', '7', 'x:y,z']
+        out = []
+        for _ in range(n):
+            ks = r.sample(keys, r.choice([1, 2, 3, 4]))
+            kvs = [[k, r.choice(vals)] for k in ks]
+            out.append((''.join('%s "%s"; ' % (k, v) for k, v in kvs), kvs))
+        return out
+
+    def search_attrs(self):
+        """C16_gtf_attrs_roundtrip evaluated on the real loadGTF: a printed attribute column must come back as its pairs"""
+        pr = self.gen_printed_attrs(120)
+        out = fw.run_impl('impl_c16.py', {'attrs': [t for t, _ in pr]})['attrs']
+        bad = [(t, kvs, o) for (t, kvs), o in zip(pr, out) if o != kvs + [['type', 'gene']]]
+        if bad:
+            t, kvs, o = min(bad, key=lambda b: len(b[0]))
+            self.witnesses.append({'key': 'x-attrs:roundtrip',
+                                   'what': 'loadGTF(store_all=True) parses the attribute column %r into %s; the printed pairs are %s '
+                                           '(C16_gtf_attrs_roundtrip)' % (t, json.dumps(o), json.dumps(kvs)),
+                                   'input': t, 'impl': o, 'expected': kvs})
+
+    def correspondence_attrs(self):
+        """Model/C16a.v parse_attrs against the attribute parsing of the real loadGTF (store_all=True exposes keyValues)"""
+        n = 300 if self.tier == 'quick' else 6000
+        texts = [self.gen_attr_text() for _ in range(n)] + [t for t, _ in self.gen_printed_attrs(n // 5)]
+        texts = [t for t in texts if len(t.strip().split(None, 1)) > 0 and '\n' not in t]
+        out = fw.run_impl('impl_c16.py', {'attrs': texts})['attrs']
+        cov = self.cov.setdefault('extension', {})
+        cov['attribute_columns_parsed_by_real_loadGTF'] = len(texts)
+        cov['attribute_columns_distinct'] = len(set(texts))
+        cov['attribute_columns_with_2plus_pairs'] = sum(1 for o in out if o and len(o) > 2)
+        if not self.model_ok:
+            return
+        mres = fw.run_model('C16', 14, texts)
+        bad = []
+        for t, m, o in zip(texts, mres, out):
+            d = {}
+            for k, v in m:
+                d[''.join(map(chr, k))] = ''.join(map(chr, v))
+            want = [[k, v] for k, v in d.items()] + [['type', 'gene']]
+            if 'type' in d:
+                want = [[k, (v if k != 'type' else 'gene')] for k, v in d.items()]
+            if o != want:
+                bad.append({'attribute_column': t, 'impl': o, 'model': want})
+        cov['attribute_column_disagreements'] = len(bad)
+        idx = list(range(min(100, len(texts))))
+        ok, nm, log = fw.vm_crosscheck('C16', 14, [(texts[i], mres[i]) for i in idx], run_name='run_C16x', require='Model.C16x')
+        cov['attribute_vm_compute_crosscheck'] = {'cases': len(idx), 'mismatches': nm}
+        if not ok:
+            raise fw.Broken('extraction', 'vm_compute and extracted model disagree (attribute parser): ' + log[-600:])
+        if bad:
+            self.attr_bad = bad
+            raise fw.Broken('correspondence', 'extension: the attribute column parser of Model/C16a.v and loadGTF disagree on %d columns; first: %s'
+                            % (len(bad), json.dumps(bad[0])[:600]))
+
+    def correspondence(self):
+        first = None
+        for part in (self.correspondence_base, self.correspondence_x, self.correspondence_attrs):
+            try:
+                part()
+            except fw.Broken as e:
+                first = first or e
+        if first is not None:
+            raise first
+
     def search(self):
+        self.search_base()
+        self.search_x()
+        self.search_attrs()
+
+    # ------------------------------------------------------------------ search (no model)
+    def search_base(self):
         """the specification (Python transcription of spec_at / spec_between / spec_blocks of Model/C16.v, see
         spec_answer) is evaluated on the implementation's own answers; the smallest failing history of every failure
         class is shrunk by delta debugging inside one process on the real implementation"""
